@@ -213,9 +213,30 @@ def surroundings(L, st, fn_entry):
         if isinstance(dv, Z):
             da = Val.addr(dv.term)
             out.append((f"other-tree-cell:{orec.tag}", st.sel("Cell", da) == fn_entry.sel("Cell", da)))
+    # built-in containers that belong to no collection tree (class-level buffer statics, registered foreign cells)
+    for (cn, an_), v in fn_entry.statics.items():
+        if isinstance(v, Z) and v.hint in ("dict", "list"):
+            a_ = Val.addr(v.term)
+            out.append((f"static-container-kept:{cn}.{an_}", st.sel("Cell", a_) == fn_entry.sel("Cell", a_)))
+    for t in fn_entry.ghost.get("frame_cells", []):
+        out.append(("foreign-container-kept", st.sel("Cell", t) == fn_entry.sel("Cell", t)))
+    keys = list(fn_entry.ghost.get("skolem_res", []))
+    for a, orec in fn_entry.objs.items():
+        # (the lock ids of the known nodes: code after the loop may take their locks)
+        if orec.tag.startswith("node") and "_filename" in orec.fields:
+            keys.append(to_val(orec.fields["_filename"]))
+        if orec.tag.startswith("node") and "_lock_id" in orec.fields:
+            try:
+                keys.append(to_val(orec.fields["_lock_id"]))
+            except Unsupported:
+                pass
+    seen = set()
     for nme in fn_entry.g:
         if nme.startswith("LockDom:"):
-            for k in fn_entry.ghost.get("skolem_res", []):
+            for k in keys:
+                if (nme, k.get_id()) in seen:
+                    continue
+                seen.add((nme, k.get_id()))
                 out.append((f"lock-table-grows:{nme[8:]}", z3.Implies(z3.Select(fn_entry.g[nme], k), z3.Select(st.g[nme], k))))
     return out
 
@@ -388,6 +409,159 @@ class UpdateDictLoop2(LoopSpec):
                 bs.dict_has(PD, k0) == bs.dict_has(D, k0), bs.dict_get(PD, k0) == bs.plain(bs.dict_get(D, k0))]
 
 
+# =================================================================================================
+# _update (list)
+diffidx_eq = F("diffidx_eq", Val, Val, IntS)
+
+
+def pyeq_list_ext(a, b, i):
+    """Python == of two list values holds if they have equal length and == elements: at the witness index."""
+    G = lambda t: bs.list_get(t, VInt(i))
+    return z3.Implies(z3.And(smt.tyof(a) == T_LIST, smt.tyof(b) == T_LIST, bs.list_len(a) == bs.list_len(b),
+                             z3.Implies(z3.And(i >= 0, i < bs.list_len(a)), pyeq(G(a), G(b)))), pyeq(a, b))
+
+
+def list_update_witness(Vpost, D, i0):
+    """Binding of the (arbitrary) Skolem index of SyncedList._update to the index at which the final view and the
+    data would differ, the extensionality lemma at it, and plain() unfolded one level on the sequence D [N-VIEW]."""
+    PD = bs.plain(D)
+    Di = bs.list_get(D, VInt(i0))
+    return [i0 == diffidx_eq(Vpost, PD), pyeq_list_ext(Vpost, PD, i0),
+            z3.Implies(core.is_sequence(D), z3.And(smt.tyof(PD) == T_LIST, bs.list_len(PD) == bs.list_len(D),
+                                                   bs.list_get(PD, VInt(i0)) == bs.plain(Di)))]
+
+
+class UpdateListLoop(LoopSpec):
+    """SyncedList._update, `for i in range(min(len(self), len(data)))`  (in index order; p = number of positions
+    done).  With D = data, c / V the receiver's container / plain view now, c0 / V0 at function entry, pointwise
+    at Skolem indices j in {i0, i1}:
+        len(c) == len(c0) == len(V), V is a list
+        0 <= j < len(c)  =>  c[j] and V[j] agree [N-VIEW], c[j] is a scalar or a node of this tree
+        0 <= j < p       =>  V[j] == plain(D[j])                       (Python ==)
+        p <= j < len(c)  =>  c[j], V[j] exactly as at entry
+        0 <= j < p and D[j] is a container of the kind of the nested collection c0[j]  =>  c[j] is c0[j]"""
+    ordered = True
+
+    def data(self, st):
+        return to_val(st.loc["data"])
+
+    def prepare(self, L, st):
+        i0 = smt.fresh("i0", IntS)
+        i1 = smt.fresh("i1", IntS)
+        st.ghost["i0"], st.ghost["i1"] = i0, i1
+        st.ghost["fn_entry"] = st.copy()
+        L.sk["i0"], L.sk["i1"] = i0, i1
+        c0, V0 = self_cell(st), self_view(st)
+        st.assume(bs.list_len(c0) == bs.list_len(V0), smt.tyof(V0) == T_LIST, bs.list_len(c0) >= 0)
+        for j in (i0, i1):
+            it = bs.list_get(c0, VInt(j))
+            st.assume(z3.Implies(z3.And(j >= 0, j < bs.list_len(c0)),
+                                 z3.And(L.eng.intr.iv(st, it) == bs.list_get(V0, VInt(j)), item_wf(st, it))))
+
+    def havoc(self, L, st):
+        havoc_heap(st)
+
+    def at(self, L, st, vis, j, full=True):
+        D = self.data(st)
+        E = st.ghost["fn_entry"]
+        c, V, c0, V0 = self_cell(st), self_view(st), self_cell(E), self_view(E)
+        J = VInt(j)
+        it = bs.list_get(c, J)
+        inr = z3.And(j >= 0, j < bs.list_len(c))
+        return [
+            ("view-agrees", z3.Implies(inr, L.eng.intr.iv(st, it) == bs.list_get(V, J))),
+            ("items-are-nodes", z3.Implies(inr, item_wf(st, it))),
+            ("visited-matches", z3.Implies(z3.And(inr, vis(j)), pyeq(bs.list_get(V, J), bs.plain(bs.list_get(D, J))))),
+            ("unvisited-untouched", z3.Implies(z3.And(inr, z3.Not(vis(j))), z3.And(
+                it == bs.list_get(c0, J), bs.list_get(V, J) == bs.list_get(V0, J)))),
+            ("identity-kept", z3.Implies(z3.And(inr, vis(j), keeps_identity(L.eng, st, bs.list_get(c0, J), z3.BoolVal(True),
+                                                                            bs.list_get(D, J))), it == bs.list_get(c0, J))),
+        ]
+
+    def invariant(self, L, st, vis):
+        E = st.ghost["fn_entry"]
+        c, V, c0 = self_cell(st), self_view(st), self_cell(E)
+        out = [("length-kept", z3.And(bs.list_len(c) == bs.list_len(c0), bs.list_len(V) == bs.list_len(c))),
+               ("typed", smt.tyof(V) == T_LIST)]
+        out += self.at(L, st, vis, L.sk["i0"])
+        out += [(lab + "@i1", cl) for (lab, cl) in self.at(L, st, vis, L.sk["i1"])]
+        return out + surroundings(L, st, E)
+
+    def invariant_instances(self, L, st, vis, i):
+        return [cl for (_, cl) in self.at(L, st, vis, i)]
+
+    def iteration_facts(self, L, st, i):
+        D = self.data(st)
+        c = self_cell(st)
+        i0, i1 = L.sk["i0"], L.sk["i1"]
+        iti, it0, it1 = bs.list_get(c, VInt(i)), bs.list_get(c, VInt(i0)), bs.list_get(c, VInt(i1))
+        st.ghost["item_terms"] = [it0, it1]
+        st.ghost["skolem_addr"] = list(st.ghost.get("skolem_addr", [])) + [Val.addr(it0), Val.addr(it1)]
+        new_i = bs.list_get(D, VInt(i))
+
+        def distinct(a, ja, b, jb):
+            # [A-TREE] distinct slots hold distinct nodes
+            return z3.Implies(z3.And(ja != jb, smt.is_VRef(a), smt.is_VRef(b)), Val.addr(a) != Val.addr(b))
+        out = [distinct(iti, i, it0, i0), distinct(iti, i, it1, i1), distinct(it0, i0, it1, i1),
+               # [N-VIEW] plain views hold no tuples / bytes (see UpdateDictLoop1)
+               z3.Implies(pyeq(new_i, L.eng.intr.iv(st, iti)), pyeq(bs.plain(new_i), L.eng.intr.iv(st, iti)))]
+        return out + list_validator_facts(L.eng, st, D, [i, i0, i1])
+
+    def at_exit(self, L, st):
+        D = self.data(st)
+        return list_validator_facts(L.eng, st, D, [L.sk["i0"], L.sk["i1"]]) + tail_facts(L.eng, st, D)
+
+
+def list_validator_facts(eng, st, D, idxs):
+    """Unfolding of the spec predicates of the family's validators on the sequence D at the given indices, and the
+    lemma json_ok => strkeys at those items."""
+    from contracts import validators as V
+    me = st.loc["self"]
+    fd, fl = core.sc.family(eng, st.rec(me).cls)
+    names = set(eng.R["classes"][st.rec(me).cls.name]["all_validators"]) | set(eng.R["classes"][fd.name]["all_validators"]) \
+        | set(eng.R["classes"][fl.name]["all_validators"])
+    preds = set()
+    for n in names:
+        preds.update(V.VALIDATOR_PREDS[n])
+    out = []
+    for pn in sorted(preds):
+        out.extend(V.unfold(pn, D, idxs))
+    for j in idxs:
+        out.extend(V.family_lemmas(bs.list_get(D, VInt(j))))
+    out.extend(V.family_lemmas(D))
+    out.append(V.type_discipline(D))
+    return out
+
+
+def tail_facts(eng, st, D):
+    """The tail D[n:] appended after the loop (n = len(self)):  [SPEC-BUILTIN] slicing a list / tuple gives a value
+    of the same type; list(x) of a sequence is a list with the same items; LEMMA (one unfolding each way, at the
+    witnesses):  P(D) => P(D[n:])  and  P(list(x)) <=> P(x) for the spec predicates."""
+    from contracts import validators as V
+    c = self_cell(st)
+    n = bs.list_len(c)
+    S = bs.list_slice_from(D, VInt(n))
+    LS = bs.list_of(S)
+    me = st.loc["self"]
+    fd, fl = core.sc.family(eng, st.rec(me).cls)
+    names = set(eng.R["classes"][st.rec(me).cls.name]["all_validators"]) | set(eng.R["classes"][fl.name]["all_validators"])
+    preds = set()
+    for nme in names:
+        preds.update(V.VALIDATOR_PREDS[nme])
+    out = [smt.tyof(S) == smt.tyof(D), z3.Implies(core.is_sequence(S), smt.tyof(LS) == T_LIST),
+           V.type_discipline(S), V.type_discipline(LS)]
+    for pn in sorted(preds):
+        w = V.witness(pn)
+        out.extend(V.unfold(pn, S, []))
+        out.extend(V.unfold(pn, LS, []))
+        out.extend(V.unfold(pn, D, [n + w(S)]))
+        out.extend(V.unfold(pn, S, [w(LS)]))
+        out.extend(V.unfold(pn, LS, [w(S)]))
+    out.extend(V.family_lemmas(S))
+    out.extend(V.family_lemmas(LS))
+    return out
+
+
 class VirtualUpdate(Contract):
     """child._update(new_value) for a child node of unknown class, reached through the slot it is stored in."""
     name = "virtual:_update"
@@ -459,10 +633,24 @@ class VirtualUpdate(Contract):
                     if isinstance(dv, Z):
                         oa = Val.addr(dv.term)
                         out.append(("A-TREE:other-cell", post.sel("Cell", oa) == pre.sel("Cell", oa)))
+            # containers that belong to no tree (proved of every concrete _update: frame:static-container /
+            # frame:foreign-container in core.tree_consistency)
+            for v in pre.statics.values():
+                if isinstance(v, Z) and v.hint in ("dict", "list"):
+                    a_ = Val.addr(v.term)
+                    out.append(("frame:static-container", post.sel("Cell", a_) == pre.sel("Cell", a_)))
+            for t in pre.ghost.get("frame_cells", []):
+                out.append(("frame:foreign-container", post.sel("Cell", t) == pre.sel("Cell", t)))
             out.append(("alloc", post.g["Alloc"] >= pre.g["Alloc"]))
             for nme in pre.g:
                 if nme.startswith("LockDom:"):
-                    for k in pre.ghost.get("skolem_res", []):
+                    # (pointwise instances of "lock tables only grow", proved of every concrete _update at an
+                    # arbitrary key: taken at the Skolem id and at the lock ids of the known nodes)
+                    keys = list(pre.ghost.get("skolem_res", []))
+                    for a_, rec_ in pre.objs.items():
+                        if rec_.tag.startswith("node") and "_filename" in rec_.fields:
+                            keys.append(to_val(rec_.fields["_filename"]))
+                    for k in keys:
                         out.append(("locks-grow", z3.Implies(z3.Select(pre.g[nme], k), z3.Select(post.g[nme], k))))
             return out
 
@@ -486,3 +674,4 @@ def register_update(eng):
     eng.virtual["_update"] = VirtualUpdate()
     eng.loop_specs[("SyncedDict._update", 1)] = UpdateDictLoop1()
     eng.loop_specs[("SyncedDict._update", 2)] = UpdateDictLoop2()
+    eng.loop_specs[("SyncedList._update", 1)] = UpdateListLoop()
